@@ -7,6 +7,7 @@ from __future__ import annotations
 
 import json
 import os
+import shutil
 import re
 import subprocess
 import sys
@@ -296,6 +297,7 @@ def main_wrapper(prop: str, run: Callable[[Report], None], argv):
     seed = int(os.environ.get("VERIF_SEED", "0") or 0)
     rep = Report(prop, tier, seed, f"python3-vt checks/check.py {prop} --tier {tier}")
     try:
+        shutil.rmtree(os.path.join(REPLAY_DIR, prop), ignore_errors=True)   # replay files describe this run only
         run(rep)
         return rep.finish()
     except SystemExit:
